@@ -35,6 +35,12 @@ func (e *kvElection) heartbeatLoop(ctx context.Context) {
 				healthCtx, cancel := context.WithTimeout(ctx, 100*time.Millisecond)
 				healthy := e.cfg.HealthChecker.Check(healthCtx)
 				cancel()
+				if ctx.Err() != nil {
+					// The term ended while the check was running (a checker may
+					// ignore its context): its verdict belongs to that term, not
+					// to a term the instance may be leading again by now.
+					return
+				}
 				if !healthy {
 					failureCount := e.healthFailureCount.Add(1)
 					log := e.getLogger()
